@@ -87,7 +87,9 @@ AnnMenu == <<
      Ann(<<Rule("maxLength", RNum(MaxU))>>, 0),
      Ann(<<Rule("minLength", RNum(Big))>>, 0),
      Ann(<<Rule("enum", RList(<< RStr("Tom"), RStr("b") >>))>>, 0),
-     Ann(<<Rule("type", RStr("string"))>>, 2) >>,
+     Ann(<<Rule("type", RStr("string"))>>, 2),
+     \* a pattern that does not compile: the project is refused (C16 judges the diagnostic)
+     Ann(<<Rule("regex", RStr("[T"))>>, 0) >>,
   \* "q\"x"
   << Ann(<<Rule("minLength", RNum("3"))>>, 0), Ann(<<>>, 1) >>,
   \* true
